@@ -68,7 +68,10 @@ PROPS["C20"]["level_text"] = (
     ">> double (libstdc++ num_get + strtod) / >> int / >> unsigned / tellg / eofbit, Model/GeoidHeader.lean): header_accept_iff (accepted <=> the scanner "
     "finds magic, comment block, size and maxval, then maxval = 65535, offset set, scale neither 0 nor negative, width and height >= 2, width even, height "
     "odd, stream position known, length = datastart + 2wh as coded), header_accept_iff_nat (for every file with less than 2^62 header bytes the 64-bit "
-    "test is the equation in unbounded naturals: no length congruent modulo 2^32 or 2^64 passes; lengthOKCoded_iff), header_reject_iff / "
+    "test is the equation in unbounded naturals: no length congruent modulo 2^32 or 2^64 passes; lengthOKCoded_iff), canonical_file_accept_iff (for EVERY even width in [2, 2^31), EVERY odd height in [3, 2^31), every data section "
+    "and every length below 2^64 the canonical file P5 / # Offset -108 / # Scale 0.003 / w h / 65535 / data is accepted exactly when its length is "
+    "header + 2wh in unbounded arithmetic, with the announced fields, and is otherwise rejected with 'File has the wrong length': the seeded 32-bit "
+    "overflow of the length test as a theorem for all sizes; printed numbers are read back, scanDigits_dec), header_reject_iff / "
     "header_reject_classes (which exception: the scanner's, or the first violated test in source order - 8 iffs), accepted_shape, accepted_fileOK, "
     "header_structure (for a file made of magic line, a block of empty / # lines, a size line and the rest the scanner is the fold of the comment lines "
     "followed by the size and maxval extraction), last_occurrence_counts (offset and scale are those of the LAST line that sets them; an unreadable value "
